@@ -761,7 +761,7 @@ def class_constant(repo: Repo, cls: str, name: str):
         if len(hits) != 1:
             return None
         v = hits[0].value
-        simple = lambda n: isinstance(n, ast.Constant) or (isinstance(n, ast.UnaryOp) and isinstance(n.operand, ast.Constant)) \
+        simple = lambda n: isinstance(n, (ast.Constant, ast.Name)) or (isinstance(n, ast.UnaryOp) and isinstance(n.operand, ast.Constant)) \
             or (isinstance(n, ast.Attribute) and isinstance(n.value, ast.Name)) \
             or (isinstance(n, (ast.Tuple, ast.List)) and all(simple(x) for x in n.elts)) \
             or (isinstance(n, ast.UnaryOp) and isinstance(n.op, ast.USub) and simple(n.operand))
@@ -1724,6 +1724,19 @@ class Walker:
                 cond = ast.copy_location(ast.If(test=test, body=[loop], orelse=[]), s)
                 ast.fix_missing_locations(cond)
                 return self.statement(cond, env)
+        if dom[0] == "tuple" and 1 <= len(dom[1]) <= 16 and not s.orelse and not any(x[0] == "star" for x in dom[1]) \
+                and not any(isinstance(x, (ast.Break, ast.Continue, ast.Starred)) for x in ast.walk(s)):
+            # a loop over a table known element by element (a class-level tuple of pairs): one copy of the body per element
+            del self.events[n_ev:]
+            for k, item in enumerate(dom[1]):
+                self._cw_n = getattr(self, "_cw_n", 0) + 1
+                tmp = f"$t{self._cw_n}"
+                env[tmp] = item
+                self.statement(ast.copy_location(ast.Assign(targets=[s.target], value=ast.Name(id=tmp, ctx=ast.Load()),
+                                                            lineno=s.lineno), s), env)
+                if self.block(s.body, env):
+                    return True
+            return None
         if dom[0] == "call" and dom[1] == ("builtin", "range") and len(dom[2]) == 1 and not dom[3] and dom[2][0][0] == "sel" \
                 and not s.orelse and (dom[2][0][2] == ("const", 0)) != (dom[2][0][3] == ("const", 0)):
             # `n = 0 if xs is None else len(xs); for i in range(n)` is `if xs is not None: for i in range(len(xs))`
@@ -2354,6 +2367,12 @@ class Walker:
             if fn in (("mod", "numpy.asarray"), ("mod", "numpy.asanyarray"), ("mod", "numpy.float64")) and (
                     not kwargs or kwargs == (("dtype", ("mod", "numpy.float64")),) or kwargs == (("dtype", ("builtin", "float")),)):
                 return args[0]
+        # setattr(obj, "name", v) is obj.name = v
+        if fn == ("builtin", "setattr") and len(args) == 3 and not kwargs and args[1][0] == "const" and isinstance(args[1][1], str):
+            tgt = ("attr", args[0], args[1][1])
+            self.emit("store", e, target=tgt, value=args[2], name="setattr")
+            self.invalidate({args[1][1]}, env, owner=self.stored_owner(tgt))
+            return ("const", None)
         # len(self) is self.__len__()
         if fn == ("builtin", "len") and args == (("self",),) and not kwargs and self.self_class:
             lf = self.repo.method(self.self_class, "__len__")
@@ -2559,6 +2578,8 @@ class Walker:
             return ("neg", v)
         if isinstance(node, (ast.Tuple, ast.List)):
             return ("tuple", tuple(self._ev_in_module(x, mi) for x in node.elts))
+        if isinstance(node, ast.Name) and node.id in BUILTINS:
+            return ("builtin", node.id)
         if isinstance(node, ast.Attribute) and isinstance(node.value, ast.Name):
             imps = getattr(mi, "imports", None) or {}
             target = imps.get(node.value.id)
